@@ -12,7 +12,7 @@ func TestDayFromYearConstants(t *testing.T) {
 	for _, c := range []struct{ y, d float64 }{
 		{1970, 0}, {1971, 365}, {1972, 730}, {1973, 1096}, // 1972 is leap
 		{1969, -365}, {1968, -731},
-		{2000, 10957},  // 30 years, 7 leap days (72,76,80,84,88,92,96)
+		{2000, 10957},   // 30 years, 7 leap days (72,76,80,84,88,92,96)
 		{1601, -134774}, // FILETIME epoch: 11644473600 s before 1970
 		{1, -719162},    // days from 0001-01-01 to 1970-01-01
 		{0, -719528},    // year 0 is leap: 719162+366
@@ -301,6 +301,27 @@ func TestParseISO(t *testing.T) {
 	for _, s := range notFormat {
 		if _, ok := ParseISO(s); ok {
 			t.Errorf("ParseISO(%q) recognised", s)
+		}
+	}
+}
+
+// Day/HourFromTime/MinFromTime/SecFromTime are written in a rounding-safe
+// form; inside the ES5 range they must equal the literal formulas of
+// 15.9.1.2 / 15.9.1.10.
+func TestLiteralFormulas(t *testing.T) {
+	var s uint64 = 99
+	next := func() uint64 { s ^= s << 13; s ^= s >> 7; s ^= s << 17; return s }
+	for i := 0; i < 2000000; i++ {
+		tv := float64(int64(next()%17280000000000001) - 8640000000000000)
+		if i%4 == 0 { // hug day boundaries
+			tv = float64(int64(next()%200000001)-100000000)*MsPerDay + float64(int64(next()%5)-2)
+			if math.Abs(tv) > 8.64e15 {
+				continue
+			}
+		}
+		if Day(tv) != math.Floor(tv/MsPerDay) || HourFromTime(tv) != mod(math.Floor(tv/MsPerHour), 24) ||
+			MinFromTime(tv) != mod(math.Floor(tv/MsPerMinute), 60) || SecFromTime(tv) != mod(math.Floor(tv/MsPerSecond), 60) {
+			t.Fatalf("literal formula differs at %v", tv)
 		}
 	}
 }
